@@ -49,7 +49,7 @@ var (
 		"http://example.com", "http://*.example.com:8080", "connector://localhost.example", "http://10.0.0.1", "http://[2001:db8::1]",
 		"http://*.localhost.example",
 	}
-	originsPSL = []string{"https://*.com", "https://*.co.uk:*", "https://*.com.", "https://*.github.io", "https://*.co.uk.:8080"}
+	originsPSL    = []string{"https://*.com", "https://*.co.uk:*", "https://*.com.", "https://*.github.io", "https://*.co.uk.:8080"}
 	originsDefect = []string{
 		"null", "file:///x", "file://localhost", "https://résumé.com", "https://EXAMPLE.com", "https://Example.com",
 		"http://example.com:80", "https://example.com:443", "https://example.com:0", "https://example.com:65536",
